@@ -32,15 +32,9 @@ ALLOW_MUTATE = {
     ("rig.place_and_route.place.hilbert:hilbert", "s"):
         "recursion state object threaded through the generator's own "
         "recursive calls (HilbertState), created fresh when omitted",
-    ("rig.machine_control.scp_connection:SCPConnection.read.callback",
-     "mem"): "the callback's purpose: store the reply into the result slice "
-             "it was bound to (a memoryview of this call's own buffer)",
     ("rig.utils.docstrings:add_int_enums_to_docstring", "enum"):
         "class decorator: extends the decorated enum's __doc__ at "
         "definition time",
-    ("rig.utils.docstrings:add_signature_to_docstring.decorate",
-     "f_wrapper"): "function decorator: sets the wrapper's __doc__ at "
-                   "definition time",
 }
 ALLOW_GLOBAL = {
     ("rig.place_and_route.route.ner", "_concentric_hexagons"):
@@ -127,7 +121,13 @@ def check(program, rep):
                             bad_params.setdefault(o[1], []).append((e, o))
             # R1: public entry points
             params = [x.arg for x in pos + a.kwonlyargs]
-            if _public(q):
+            # (a function defined inside another function is no entry
+            # point: what it does to its arguments is accounted to the
+            # enclosing function through its call summary)
+            local_def = "." in q and isinstance(
+                program.modules[m].defs.get(q.rsplit(".", 1)[0]),
+                ast.FunctionDef)
+            if _public(q) and not local_def:
                 for p_ in params:
                     if p_ in ("self", "cls"):
                         continue
@@ -202,9 +202,16 @@ def check(program, rep):
                             # keys cannot be observed; one whose key leaves
                             # out something the value depends on answers
                             # with another call's result
-                            from ..memo import memo_verdict
+                            from ..memo import memo_verdict, \
+                                memo_values_mutable
                             try:
                                 verdict, text = memo_verdict(fn, o[2])
+                                if verdict == "ok" and memo_values_mutable(
+                                        fn, o[2]) is not False:
+                                    verdict, text = "unknown", \
+                                        "a memo whose entries may be " \
+                                        "mutable objects shared by all " \
+                                        "callers"
                             except AnalysisError as ex:
                                 verdict, text = "unknown", str(ex)
                             if verdict == "ok":
@@ -329,14 +336,17 @@ def check(program, rep):
     rep.note("module-level mutable bindings in scope: %s" % ", ".join(inv))
     rep.note("functions analysed: %d; calls resolved to rig defs: %d, "
              "opaque: %d" % (n_fn, eff.resolved, eff.unresolved))
-    for key in ALLOW_MUTATE:
+    # an allow-list entry that matches nothing is a stale table on the tree
+    # the rules were confirmed on (an error of the checker); on a changed
+    # tree it only means the code no longer does what was excused
+    from ..core import _is_reference
+    for key in list(ALLOW_MUTATE) + list(ALLOW_ESCAPE):
         if key not in used_allow:
-            raise AnalysisError("allow-list entry %s no longer matches "
-                                "anything (anchor vanished)" % (key,))
-    for key in ALLOW_ESCAPE:
-        if key not in used_allow:
-            raise AnalysisError("allow-list entry %s no longer matches "
-                                "anything (anchor vanished)" % (key,))
+            if _is_reference("C17", program):
+                raise AnalysisError("allow-list entry %s no longer matches "
+                                    "anything (anchor vanished)" % (key,))
+            rep.note("allow-list entry %s matches nothing on this tree" %
+                     (key,))
     rep.floor("C17-R1", 400)
     rep.floor("C17-R2", 1)
     rep.floor("C17-R3", 20)
